@@ -439,4 +439,41 @@ def closureG (e : Expansion) (body : Body) (fuel : Nat) (vs : List Val) (s : Sto
     | none => .error .arity
     | some avs => evalG e body fuel (avs.map Slot.val ++ e.closureCallTail.map (borrowOuter s)) s
 
+/-! ## Part 3: what a name denotes (value namespace) in the generated code vs in the explicit recursion
+
+`macro_rules!` hygiene covers local variables and labels only: the ITEM the expansion declares (the inner fn) is visible to
+the user's body under its name, and the user's parameters are visible to the tokens of the local macro. The recursion's name
+given by the user names the local MACRO and therefore lives in the macro namespace only - it does not occur below. -/
+
+/-- What an identifier used as a value denotes. -/
+inductive Ent where
+  | loc (n : Name)       -- a `let` of the body
+  | param (n : Name)     -- a parameter of the (inner / explicit) fn: an argument or a capture
+  | hiddenFn             -- the fn item declared by the block the macro expands to
+  | outer (n : Name)     -- whatever `n` means in the scope enclosing the invocation (free fn, const, prelude name, outer `let`, …)
+  deriving DecidableEq, Repr, Inhabited
+
+/-- The name `_rec_lambda_2_` gives the inner fn: a fixed identifier, independent of the invocation. -/
+def hiddenName : Name := "_lambda_name_"
+
+/-- An identifier written by the user in the body, at a point where the `let`s `locals` of the body are in scope, in the
+    GENERATED code (`hidden` = the name of the inner fn): `let`s of the body, then the inner fn's parameters, then the items of
+    the block the macro expands to (the inner fn), then the enclosing scope. -/
+def resolveG (hidden : Name) (e : Expansion) (locals : List Name) (x : Name) : Ent :=
+  if x ∈ locals then .loc x
+  else if x ∈ e.params.map (·.1) then .param x
+  else if x = hidden then .hiddenFn
+  else .outer x
+
+/-- An identifier in the transcription of the local macro (the callee, the appended capture names): hygiene resolves it where the
+    macro is DEFINED - at the top of the inner fn's body: its parameters are in scope, no `let` of the body is. -/
+def resolveCallG (hidden : Name) (e : Expansion) (x : Name) : Ent := resolveG hidden e [] x
+
+/-- The same identifier in the explicit recursion the user means: `let`s of the body, its own parameters (arguments and
+    captures), else the enclosing scope. (The explicit fn's own name is not a name of the user's program.) -/
+def resolveE (inv : Inv) (locals : List Name) (x : Name) : Ent :=
+  if x ∈ locals then .loc x
+  else if x ∈ inv.args ++ inv.caps.map (·.1) then .param x
+  else .outer x
+
 end Rlib.Lambda
